@@ -212,9 +212,11 @@ def _flex_broadphase(warn_overflow: bool):
     if gtype == int(GeomType.SPHERE):
       r_extent = geom_half_size_local[0]
     elif gtype == int(GeomType.CAPSULE):
-      r_extent = geom_half_size_local[0] + geom_half_size_local[1]
+      # half sizes of the local AABB: (radius, radius, radius + half length)
+      r_extent = geom_half_size_local[2]
     elif gtype == int(GeomType.CYLINDER):
-      r_extent = wp.sqrt(geom_half_size_local[0] * geom_half_size_local[0] + geom_half_size_local[1] * geom_half_size_local[1])
+      # half sizes of the local AABB: (radius, radius, half length)
+      r_extent = wp.sqrt(geom_half_size_local[0] * geom_half_size_local[0] + geom_half_size_local[2] * geom_half_size_local[2])
     elif gtype == int(GeomType.BOX):
       r_extent = wp.length(geom_half_size_local)
     elif gtype == int(GeomType.MESH):
